@@ -208,7 +208,7 @@ def run(ctx):
     for m in ("binary", "unary"):
         for d in range(2, dmax + 1):
             for nm in modes:
-                if R.qubits_per_mode(m, d) * nm > qcap:
+                if R.qubits_per_mode(m, d) * nm > qcap or (nm == 3 and d > 4):
                     continue
                 for w in R.all_words(nm, 3):
                     words.append({"k": "word", "m": m, "nm": nm, "d": d, "w": w, "ps": True, "wm": "none", "tol": None})
